@@ -56,6 +56,21 @@ def mechanism(sc, va, vb, pa, pb, d):
                 break
         if seg is not None and seg.out[0] == "res":
             return "callback-error-while-handling-result-failure-treated-as-attempt-failure-by-execute"
+    # KF6: an attempt hook (on_attempt_start / on_attempt_end) raised; execute() runs the attempt's callbacks inside the operation's
+    # try block and processes the error as a failure of that attempt (classifier called on it, possibly a retry - even after a success),
+    # call() propagates it
+    if f and f.get("kind") == "cb" and f.get("cb") in ("astart", "aend") and va.is_execute != vb.is_execute:
+        ve, vc = (va, vb) if va.is_execute else (vb, va)
+        contained = False
+        tr = ve.trace
+        for i_, e_ in enumerate(tr):
+            if e_[0] == "fault" and e_[1] in ("astart", "aend"):
+                # the run went on after the hook's error instead of ending with it
+                contained = any(z[0] in ("classify", "op", "metric", "poll", "strategy") for z in tr[i_ + 1:])
+                break
+        propagated = vc.final[0] == "raise" and vc.final[1] is vc.rec.objs.get("fault")
+        if contained and propagated:
+            return "attempt-hook-error-treated-as-attempt-failure-by-execute"
     if x is None or y is None:
         return "trace-length-differs:" + (x or y)[0]
     if x[0] != y[0]:
@@ -153,6 +168,11 @@ def work(ctx, tier):
             ex = rng.random() < 0.5
             ents = [e for e in ents if e.endswith("execute") == ex]
             ctx.inc("scenarios_with_raising_attempt_hook_same_delivery")
+        elif k % 5 == 3 and k % 2:
+            # the same, across deliveries: call() against execute() (the clean tree differs here by KF6, and only by KF6)
+            sc["place"]["hooks"] = rng.choice(["call", "policy", "both"])
+            sc["fault"] = {"kind": "cb", "cb": rng.choice(["astart", "aend", "aend"]), "at": rng.choice([0, 1, 1, 2]), "exc": rng.choice(["RuntimeError", "ValueError", "KeyError"])}
+            ctx.inc("scenarios_with_raising_attempt_hook_across_deliveries")
         rng.shuffle(ents)
         ref = compare(ctx, sc, ents, stats)
         for ftr in features(sc):
@@ -177,6 +197,7 @@ def work(ctx, tier):
 
 def conclude(ctx):
     floors = {"pairs_compared": (ctx.cnt["pairs_compared"], 5000)}
+    floors["scenarios_with_raising_attempt_hook_across_deliveries"] = (ctx.cnt["scenarios_with_raising_attempt_hook_across_deliveries"], 40)
     floors["hung_attempt_twin_comparisons"] = (ctx.cnt["hung_attempt_twin_comparisons"], 6)
     floors["scenarios_with_raising_attempt_hook_same_delivery"] = (ctx.cnt["scenarios_with_raising_attempt_hook_same_delivery"], 100)
     for f in ("SS", "SA", "AS", "AA"):
@@ -201,6 +222,7 @@ def conclude(ctx):
             "call() raising the final scripted exception object is identified with the execute() outcome that carries it",
             "KF2 (final nested CircuitOpenError accounted differently by call() and execute()) is recognised only by that mechanism",
             "KF4 (a caller callback raising while a result-caused failure is handled: execute() treats it as an attempt failure, call() propagates it) is recognised only by that mechanism",
+            "KF6 (an attempt hook raising: execute() contains the error as a failure of the attempt - even after a success - call() propagates it) is recognised only when the execute side shows the hook error being classified and the call side delivers that very error",
         ],
         exhaustive=False,
     )
